@@ -1,12 +1,48 @@
 /-
-  Line-protocol handlers for C17.  `handle` receives the tokens after the property id.
+  Line-protocol handlers for C17 (tournament and lexicase selection).
 -/
 import GEVerif.Model.Sexp
+import GEVerif.Model.Steps
+import GEVerif.Model.StepsWire
 
 namespace GEVerif.Drive.C17
-open GEVerif Sexp
+open GEVerif GEVerif.Steps Sexp StepsWire
+
+def mkScript (draws : List Nat) : Script := { draws := draws, pos := 0 }
+
+def parseRounds (s : Sexp) : Option (List (List Ind × Ind)) := do
+  (← s.asList?).mapM fun r => do
+    match r with
+    | list [parts, w] => pure (← parsePop parts, ← parseInd w)
+    | _ => none
 
 def handle : List Sexp → Option Sexp
+  -- (participants, winner) of every tournament
+  | [atom "tournament", pop, ts, wr, k, ints] => do
+      let pop ← parsePop pop
+      match tournamentGo scripted pop (← ts.asNat?) (← wr.asBool?) (← k.asNat?) pop (mkScript (← ints.asNats?)) with
+      | some (tr, _) => pure (list (tr.map fun (parts, w) => list [ofIds parts, ofInt w.id]))
+      | none => pure err
+  -- (case order, winner) of every lexicase selection
+  | [atom "lexicase", pop, n, mins, eps, k, ints] => do
+      let pop ← parsePop pop
+      match lexicaseGo scripted (← n.asNat?) (← parseBools mins) (← eps.asBool?) (← k.asNat?) pop (mkScript (← ints.asNats?)) with
+      | some (tr, _) => pure (list (tr.map fun (_, cases, w) => list [ofNats cases, ofInt w.id]))
+      | none => pure err
+  -- predicates on implementation output
+  | [atom "prop_tournament", pop, rounds] => do
+      let pop ← parsePop pop
+      pure (ofBool ((← parseRounds rounds).all fun (parts, w) => tournamentRoundOk pop parts w))
+  | [atom "prop_lexicase", pop, n, mins, eps, winners] => do
+      pure (ofBool (lexicaseOk (← n.asNat?) (← parseBools mins) (← eps.asBool?) (← parsePop pop) (← parsePop winners)))
+  -- one winner against the case order the implementation actually drew for it
+  | [atom "prop_lexicase_round", remaining, n, mins, eps, cases, w] => do
+      let rem ← parsePop remaining
+      let w ← parseInd w
+      let cases ← cases.asNats?
+      let n ← n.asNat?
+      pure (ofBool (rem.contains w && cases.length == n && (List.range n).all (cases.contains ·) &&
+        (lexFilter (← eps.asBool?) (← parseBools mins) cases rem).contains w))
   | _ => none
 
 end GEVerif.Drive.C17
